@@ -1821,3 +1821,104 @@ Proof.
 Qed.
 
 End StarFinal.
+
+(* ================================================================== *)
+(* 7.10 the theorems, with explicit hypotheses                         *)
+(* ================================================================== *)
+
+(* the start conditions of one follower F (those of pair_convergence) *)
+Definition star_start (L : raft) (rwf : bool) (F : raft) : Prop :=
+  r_id L <> r_id F /\ to_peer (r_id F) (r_msgs L) = [] /\
+  exists pr a,
+    get_pr L (r_id F) = Some pr /\ (pr_state pr = Probe \/ pr_state pr = Replicate) /\
+    matched pr < next_idx pr /\ next_idx pr <= last_index (r_log L) + 1 /\
+    pending_request_snapshot pr = 0 /\
+    incoming_cap (ins pr) = None /\ (0 < cap (ins pr))%nat /\
+    ll_base (abs (r_log L)) <= matched pr /\
+    (exists t, ll_term (abs (r_log L)) (matched pr) = SOk t) /\
+    r_state F = Follower /\ r_term F = r_term L /\ RepInv rwf (r_log F) /\
+    r_pending_request_snapshot F = 0 /\ r_msgs F = [] /\
+    Agree (abs (r_log L)) (abs (r_log F)) (matched pr) a /\ committed (r_log F) <= a /\
+    (r_promotable F = false \/
+     r_election_elapsed F + r_heartbeat_timeout L + 1 < r_randomized_election_timeout F).
+
+(* the start conditions of the leader *)
+Definition star_leader (L : raft) (rwl : bool) : Prop :=
+  r_state L = Leader /\ r_term L <> 0 /\ RepInv rwl (r_log L) /\
+  (forall e, In e (ll_ents (abs (r_log L))) -> e_term e <> 0) /\
+  r_batch_append L = false /\ r_lead_transferee L = None /\ r_check_quorum L = false /\
+  ro_queue (r_read_only L) = [] /\ 1 <= r_heartbeat_timeout L.
+
+(* the index from which follower id is known to agree: its matched at the start *)
+Definition start_matched (L : raft) (id : N) : N :=
+  match get_pr L id with Some p => matched p | None => 0 end.
+
+(* what is reached for follower F *)
+Definition star_done (L L' : raft) (F F' : raft) : Prop :=
+  r_id F' = r_id F /\
+  (exists pr', get_pr L' (r_id F) = Some pr' /\ matched pr' = last_index (r_log L)) /\
+  Agree (abs (r_log L)) (abs (r_log F')) (start_matched L (r_id F)) (last_index (r_log L)).
+
+Lemma star_start_StarInv L Fs rwl rwf :
+  star_leader L rwl -> NoDup (map r_id Fs) -> Forall (star_start L rwf) Fs ->
+  LeaderLog (abs (r_log L)) /\
+  StarInv (abs (r_log L)) (r_term L) (r_id L) rwf (r_log L) (start_matched L)
+          (r_heartbeat_timeout L) L Fs.
+Proof.
+  intros (Ls & Lt & Lrep & Lnz & Lb & Ltr & Lcq & Lro & LH) Hnd Hall.
+  assert (HLL : LeaderLog (abs (r_log L))).
+  { constructor; [apply (abs_wf rwl _ Lrep)|exact Lnz|apply (ri_bound rwl _ Lrep)]. }
+  split; [exact HLL|]. split; [exact Hnd|].
+  eapply Forall_impl; [|exact Hall]. intros F (Lid & Lq & pr & a & Pg & Pst & Pn & PnL & Pq & Pic & Pcap &
+    Pbase & Pterm & Fs0 & Ft & Frep & Fq & Fm & Fag & Fc & Ftimer).
+  pose proof (abs_last rwl _ Lrep) as Hlast.
+  unfold FolInv, start_matched. rewrite Pg.
+  split; [exact Lid|]. split; [exact Pbase|]. split; [exact Pterm|]. exists a.
+  constructor.
+  - constructor; auto. apply same_ents_refl.
+  - exists pr. split; [exact Pg|].
+    constructor; [exact Pst|lia|apply (ag_lo _ _ _ _ Fag)|exact Pn|rewrite <- Hlast; exact PnL|
+                  exact Pq|exact Pic|exact Pcap].
+  - constructor; auto.
+  - exact Fm.
+  - rewrite Lq. constructor.
+  - reflexivity.
+  - destruct Ftimer as [Ft1|Ft1]; [left; exact Ft1|right]. split; [lia|]. intros _. lia.
+Qed.
+
+(* MAIN 7 (star_convergence).  One leader L and followers Fs with distinct ids, each
+   satisfying the start conditions of pair_convergence (star_start), under the lock-step
+   schedule [star_round].  If N0 rounds run without a panic, N0 at least the pair bound
+   (heartbeat_timeout + 2) * pair_measure_bound last matched of EVERY follower (i.e. the
+   maximum of the pair bounds), then for every follower: L's Progress has
+   matched = last_index L and the follower's log agrees with L's up to last_index L. *)
+Theorem star_convergence :
+  forall (L : raft) (Fs : list raft) (rwl rwf : bool) (N0 : nat) (L' : raft) (Fs' : list raft),
+  star_leader L rwl -> Fs <> [] -> NoDup (map r_id Fs) -> Forall (star_start L rwf) Fs ->
+  (forall F, In F Fs ->
+     (N.to_nat (r_heartbeat_timeout L + 2) *
+      N.to_nat (pair_measure_bound (last_index (r_log L)) (start_matched L (r_id F))) <= N0)%nat) ->
+  star_rounds N0 L Fs = Ok (L', Fs') ->
+  Forall2 (star_done L L') Fs Fs' /\
+  r_state L' = Leader /\ r_term L' = r_term L /\ last_index (r_log L') = last_index (r_log L).
+Proof.
+  intros L Fs rwl rwf N0 L' Fs' HL Hne Hnd Hall HN H.
+  destruct (star_start_StarInv L Fs rwl rwf HL Hnd Hall) as [HLL HS].
+  destruct HL as (Ls & Lt & Lrep & Lnz & Lb & Ltr & Lcq & Lro & LH).
+  pose proof (abs_last rwl _ Lrep) as Hlast.
+  destruct (star_converges (abs (r_log L)) (r_term L) (r_id L) rwf rwl (r_log L) (start_matched L)
+              HLL Lt Lrep eq_refl (r_heartbeat_timeout L) L Fs N0 L' Fs' HS LH
+              ltac:(intros F HF; unfold star_bound; rewrite <- Hlast; apply HN; exact HF) H) as [HS' HF].
+  split.
+  { eapply Forall2_impl_in; [|exact HF]. intros F F' _ (E & pr' & Hg & Hm & Ag).
+    unfold star_done. rewrite Hlast. split; [exact E|]. split; [eauto|exact Ag]. }
+  assert (HLs : r_state L' = Leader /\ r_term L' = r_term L /\ last_index (r_log L') = last_index (r_log L)).
+  { destruct Fs as [|F0 t].
+    - congruence.
+    - destruct HS' as [_ HA']. inversion HF as [|? F0' ? t' _ _]; subst.
+      pose proof (Forall_inv HA') as (_ & _ & _ & a & HI).
+      pose proof (pv_core _ _ _ _ _ _ _ _ _ _ _ HI) as HC.
+      split; [apply (lc_state _ _ _ _ HC)|]. split; [apply (lc_term _ _ _ _ HC)|].
+      destruct (lc_log _ _ _ _ HC) as (A & B & _). unfold last_index. rewrite A, B. reflexivity. }
+  exact HLs.
+Qed.
